@@ -225,6 +225,10 @@ theorem targetsOrdered_spec (es : List Edge) (n : Nat) (hes : InRange n es) (st 
     (a b : Nat) (ha : a < n) (hb : b < n) :
     ∃ r st', targetsOrdered es st a b = some (r, st') ∧ MemoOK n st'.memo ∧ passPot n es st' ≤ passPot n es st + 2 := by
   unfold targetsOrdered
+  by_cases hab : a = b
+  · subst hab; simp only [beq_self_eq_true, ↓reduceIte]; exact ⟨true, st, rfl, hm, by omega⟩
+  have hab' : (a == b) = false := by simpa using hab
+  simp only [hab', Bool.false_eq_true, ↓reduceIte]
   obtain ⟨sa, st1, h1, hm1, hp1⟩ := getSet_spec es n hes st hm a ha
   simp only [h1]
   by_cases hc : sa.contains b = true
